@@ -103,7 +103,9 @@ impl JobManager {
             }
         }
 
-        let id = self.jobs.len() + 1;
+        // N.B. Not `len() + 1`: finished jobs are removed lazily, so the table may have holes and
+        // a count-based number could collide with one that is still live.
+        let id = self.jobs.iter().map(|j| j.id).max().unwrap_or(0) + 1;
         job.id = id;
         #[cfg(feature = "verif-hooks")]
         crate::verif::event(
